@@ -1,10 +1,20 @@
 package symgo
 
-// Goroutines and channels. Without the cooperative scheduler (sched == nil)
-// only non-blocking channel operations are supported; anything that would
-// block or spawn traps.
+// Goroutines and channels.
+//
+// Interpreted goroutines run as coroutines: each has a carrier Go goroutine,
+// but exactly one runs at any time and control changes hands only at
+// synchronisation operations (go, channel send/receive/close, select, mutex
+// lock/unlock, goroutine exit, sym.Quiesce). At each such point the next
+// runnable goroutine is a *symbolic choice*, decided and forked like any other
+// branch, so all interleavings of synchronisation operations within the bounds
+// are explored. For race-free code this is exact under the Go memory model.
+//
+// Without goroutines (the usual case) none of this machinery is active and
+// only non-blocking channel operations are possible.
 
 import (
+	"fmt"
 	"go/types"
 
 	"golang.org/x/tools/go/ssa"
@@ -12,44 +22,400 @@ import (
 
 type goroutineSwitch struct{}
 
-type scheduler struct{}
+type gstate int
+
+const (
+	gRunnable gstate = iota
+	gBlocked
+	gDone
+	gQuiescing // main waiting for every other goroutine to block or finish
+)
+
+type gor struct {
+	id     int
+	state  gstate
+	resume chan struct{}
+	// saved interpreter context
+	stack []*cfunc
+	arena []value
+	sp    int
+	// wake-up data
+	recvVal  value
+	recvOk   bool
+	selIndex int
+	what     string // what it is blocked on (diagnostics)
+	fn       string
+}
+
+type waiter struct {
+	g      *gor
+	val    value // for senders
+	selIdx int   // case index when parked by a select, else -1
+	sel    *selectPark
+}
+
+type selectPark struct {
+	done bool
+}
+
+type scheduler struct {
+	i       *interpreter
+	gs      []*gor
+	cur     *gor
+	fatal   interface{} // engine-level outcome raised in a non-main goroutine
+	dying   bool
+	points  int
+	maxPts  int
+	// preemption bound: a switch away from a goroutine that could have
+	// continued counts as a preemption; switches at blocking points are free
+	preempt    int
+	maxPreempt int
+	mutexes map[*value]*vmutex
+}
+
+type vmutex struct {
+	held    bool
+	waiters []*gor
+}
+
+func (i *interpreter) ensureSched() *scheduler {
+	if i.sched == nil {
+		main := &gor{id: 0, state: gRunnable, resume: make(chan struct{}), fn: "main"}
+		i.sched = &scheduler{i: i, gs: []*gor{main}, cur: main, mutexes: map[*value]*vmutex{}, maxPts: 400, maxPreempt: i.cfg.MaxPreempt}
+	}
+	return i.sched
+}
+
+// teardown ends every carrier goroutine of the current path.
+func (i *interpreter) teardownSched() {
+	s := i.sched
+	if s == nil {
+		return
+	}
+	s.dying = true
+	for _, g := range s.gs {
+		if g.id != 0 && g.state != gDone {
+			g.state = gDone
+			select {
+			case g.resume <- struct{}{}:
+			default:
+				// the carrier is not parked (it is the one tearing down, or has finished)
+			}
+		}
+	}
+	i.sched = nil
+}
+
+func (s *scheduler) runnable() []*gor {
+	var out []*gor
+	for _, g := range s.gs {
+		if g.state == gRunnable {
+			out = append(out, g)
+		}
+	}
+	return out
+}
+
+// schedule is called by the current goroutine at a scheduling point. It
+// returns when the current goroutine is chosen to run again.
+func (s *scheduler) schedule() {
+	i := s.i
+	s.points++
+	if s.points > s.maxPts {
+		panic(boundExceeded{fmt.Sprintf("more than %d scheduling points on one path", s.maxPts)})
+	}
+	me := s.cur
+	for {
+		rs := s.runnable()
+		if len(rs) == 0 {
+			// nobody can run: a goroutine waiting for quiescence is released
+			var q *gor
+			for _, g := range s.gs {
+				if g.state == gQuiescing {
+					q = g
+				}
+			}
+			if q != nil {
+				q.state = gRunnable
+				continue
+			}
+			panic(targetPanic{iface{types.Typ[types.String], "all goroutines are asleep - deadlock!"}})
+		}
+		var next *gor
+		if len(rs) == 1 {
+			next = rs[0]
+		} else if me.state == gRunnable && s.preempt >= s.maxPreempt {
+			next = me // preemption budget used up: keep running
+		} else {
+			v := i.sym.fresh("sched", 8)
+			i.sym.assume(i.sym.tt.bvcmp(opBvUlt, v, i.sym.tt.bv(uint64(len(rs)), 8)))
+			next = rs[int(i.sym.concretise(v))]
+		}
+		if next == me {
+			return
+		}
+		if me.state == gRunnable {
+			s.preempt++
+		}
+		s.switchTo(me, next)
+		if me.state == gRunnable && s.cur == me {
+			return
+		}
+	}
+}
+
+// switchTo parks the carrier of `me` and resumes `next`.
+func (s *scheduler) switchTo(me, next *gor) {
+	i := s.i
+	me.stack, me.arena, me.sp = i.stack, i.arena, i.sp
+	s.cur = next
+	i.stack, i.arena, i.sp = next.stack, next.arena, next.sp
+	next.resume <- struct{}{}
+	<-me.resume
+	if s.dying || i.sched != s {
+		panic(pathAbort{"path ended"})
+	}
+	if me.id == 0 && s.fatal != nil {
+		f := s.fatal
+		s.fatal = nil
+		panic(f)
+	}
+	i.stack, i.arena, i.sp = me.stack, me.arena, me.sp
+	s.cur = me
+}
+
+// block parks the current goroutine until another one makes it runnable.
+func (s *scheduler) block(what string) {
+	me := s.cur
+	me.state = gBlocked
+	me.what = what
+	s.schedule()
+}
+
+func (i *interpreter) spawn(fr *frame, fn value, args []value) {
+	s := i.ensureSched()
+	g := &gor{id: len(s.gs), state: gRunnable, resume: make(chan struct{})}
+	switch f := fn.(type) {
+	case *ssa.Function:
+		g.fn = f.String()
+	case *closure:
+		g.fn = f.Fn.String()
+	}
+	s.gs = append(s.gs, g)
+	go func() {
+		<-g.resume
+		if s.dying || i.sched != s {
+			return
+		}
+		defer func() {
+			r := recover()
+			g.state = gDone
+			if s.dying || i.sched != s {
+				return
+			}
+			if r != nil {
+				if _, ok := r.(pathAbort); ok && s.dying {
+					return
+				}
+				// everything that ends a path is raised in the main goroutine
+				if tp, ok := r.(targetPanic); ok {
+					r = targetPanic{iface{types.Typ[types.String], "panic in goroutine " + g.fn + ": " + renderPanic(i, tp)}}
+				}
+				s.fatal = r
+				main := s.gs[0]
+				main.state = gRunnable
+				s.cur = main
+				i.stack, i.arena, i.sp = main.stack, main.arena, main.sp
+				main.resume <- struct{}{}
+				return
+			}
+			// normal exit: hand control to somebody else
+			func() {
+				defer func() {
+					if r2 := recover(); r2 != nil {
+						if s.dying || i.sched != s {
+							return
+						}
+						s.fatal = r2
+						main := s.gs[0]
+						main.state = gRunnable
+						s.cur = main
+						i.stack, i.arena, i.sp = main.stack, main.arena, main.sp
+						main.resume <- struct{}{}
+					}
+				}()
+				s.exitCurrent(g)
+			}()
+		}()
+		i.stack, i.arena, i.sp = nil, nil, 0
+		call(i, nil, 0, fn, args)
+	}()
+	s.schedule()
+}
+
+// exitCurrent picks a successor for a goroutine that has finished.
+func (s *scheduler) exitCurrent(g *gor) {
+	i := s.i
+	for {
+		rs := s.runnable()
+		if len(rs) == 0 {
+			var q *gor
+			for _, x := range s.gs {
+				if x.state == gQuiescing {
+					q = x
+				}
+			}
+			if q != nil {
+				q.state = gRunnable
+				continue
+			}
+			panic(targetPanic{iface{types.Typ[types.String], "all goroutines are asleep - deadlock!"}})
+		}
+		var next *gor
+		if len(rs) == 1 {
+			next = rs[0]
+		} else {
+			v := i.sym.fresh("sched", 8)
+			i.sym.assume(i.sym.tt.bvcmp(opBvUlt, v, i.sym.tt.bv(uint64(len(rs)), 8)))
+			next = rs[int(i.sym.concretise(v))]
+		}
+		s.cur = next
+		i.stack, i.arena, i.sp = next.stack, next.arena, next.sp
+		next.resume <- struct{}{}
+		return
+	}
+}
+
+// ---- channels
 
 func (i *interpreter) makeChan(n int, elem types.Type) *vchan {
 	return &vchan{cap: n, elem: elem}
 }
 
-func (i *interpreter) spawn(fr *frame, fn value, args []value) {
-	panic(engineTrap{msg: "go statement outside the cooperative scheduler"})
+type chanQueues struct {
+	senders   []*waiter
+	receivers []*waiter
+}
+
+func (i *interpreter) queues(c *vchan) *chanQueues {
+	qs, _ := i.natState["chanq"].(map[*vchan]*chanQueues)
+	if qs == nil {
+		qs = map[*vchan]*chanQueues{}
+		i.natState["chanq"] = qs
+	}
+	q := qs[c]
+	if q == nil {
+		q = &chanQueues{}
+		qs[c] = q
+	}
+	return q
+}
+
+func popWaiter(ws *[]*waiter) *waiter {
+	for len(*ws) > 0 {
+		w := (*ws)[0]
+		*ws = (*ws)[1:]
+		if w.sel != nil {
+			if w.sel.done {
+				continue
+			}
+			w.sel.done = true
+		}
+		return w
+	}
+	return nil
+}
+
+func (i *interpreter) trySend(c *vchan, v value) bool {
+	q := i.queues(c)
+	if w := popWaiter(&q.receivers); w != nil {
+		w.g.recvVal, w.g.recvOk, w.g.selIndex = v, true, w.selIdx
+		w.g.state = gRunnable
+		return true
+	}
+	if len(c.buf) < c.cap {
+		c.buf = append(c.buf, v)
+		return true
+	}
+	return false
+}
+
+func (i *interpreter) tryRecv(c *vchan) (value, bool, bool) {
+	q := i.queues(c)
+	if len(c.buf) > 0 {
+		v := c.buf[0]
+		c.buf = c.buf[1:]
+		if w := popWaiter(&q.senders); w != nil {
+			c.buf = append(c.buf, w.val)
+			w.g.selIndex = w.selIdx
+			w.g.state = gRunnable
+		}
+		return v, true, true
+	}
+	if w := popWaiter(&q.senders); w != nil {
+		w.g.selIndex = w.selIdx
+		w.g.state = gRunnable
+		return w.val, true, true
+	}
+	if c.closed {
+		return zero(c.elem), false, true
+	}
+	return nil, false, false
 }
 
 func (i *interpreter) chanSend(fr *frame, c *vchan, v value) {
 	if c == nil {
-		panic(engineTrap{msg: "send on nil channel blocks forever"})
+		if i.sched == nil {
+			panic(engineTrap{msg: "send on nil channel blocks forever"})
+		}
+		i.sched.block("send on nil channel")
+		return
 	}
 	if c.closed {
 		panic(targetPanic{iface{types.Typ[types.String], "send on closed channel"}})
 	}
-	if len(c.buf) < c.cap {
-		c.buf = append(c.buf, v)
+	if i.trySend(c, v) {
+		if i.sched != nil {
+			i.sched.schedule()
+		}
 		return
 	}
-	panic(engineTrap{msg: "blocking channel send outside the cooperative scheduler"})
+	if i.sched == nil {
+		panic(engineTrap{msg: "blocking channel send outside the cooperative scheduler"})
+	}
+	q := i.queues(c)
+	q.senders = append(q.senders, &waiter{g: i.sched.cur, val: v, selIdx: -1})
+	i.sched.block("chan send")
+	if c.closed && i.sched.cur.selIndex == -2 {
+		panic(targetPanic{iface{types.Typ[types.String], "send on closed channel"}})
+	}
 }
 
 func (i *interpreter) chanRecv(fr *frame, instr *ssa.UnOp, c *vchan) value {
-	if c == nil {
-		panic(engineTrap{msg: "receive from nil channel blocks forever"})
-	}
 	var v value
 	ok := false
-	switch {
-	case len(c.buf) > 0:
-		v, ok = c.buf[0], true
-		c.buf = c.buf[1:]
-	case c.closed:
-		v = zero(c.elem)
-	default:
-		panic(engineTrap{msg: "blocking channel receive outside the cooperative scheduler"})
+	if c == nil {
+		if i.sched == nil {
+			panic(engineTrap{msg: "receive from nil channel blocks forever"})
+		}
+		i.sched.block("receive from nil channel")
+	} else if rv, rok, ready := i.tryRecv(c); ready {
+		v, ok = rv, rok
+		if i.sched != nil {
+			i.sched.schedule()
+		}
+	} else {
+		if i.sched == nil {
+			panic(engineTrap{msg: "blocking channel receive outside the cooperative scheduler"})
+		}
+		q := i.queues(c)
+		me := i.sched.cur
+		q.receivers = append(q.receivers, &waiter{g: me, selIdx: -1})
+		i.sched.block("chan receive")
+		v, ok = me.recvVal, me.recvOk
+		if !ok {
+			v = zero(c.elem)
+		}
 	}
 	if instr.CommaOk {
 		return tuple{v, ok}
@@ -65,44 +431,140 @@ func (i *interpreter) chanClose(fr *frame, c *vchan) {
 		panic(targetPanic{iface{types.Typ[types.String], "close of closed channel"}})
 	}
 	c.closed = true
+	q := i.queues(c)
+	for {
+		w := popWaiter(&q.receivers)
+		if w == nil {
+			break
+		}
+		w.g.recvVal, w.g.recvOk, w.g.selIndex = nil, false, w.selIdx
+		w.g.state = gRunnable
+	}
+	for {
+		w := popWaiter(&q.senders)
+		if w == nil {
+			break
+		}
+		w.g.selIndex = -2 // woken by close: the send panics
+		w.g.state = gRunnable
+	}
+	if i.sched != nil {
+		i.sched.schedule()
+	}
 }
 
 func (i *interpreter) selectStmt(fr *frame, instr *ssa.Select, ci *cinstr) value {
-	// non-blocking evaluation in source order
-	r := tuple{-1, false}
+	type cs struct {
+		c    *vchan
+		send bool
+		val  value
+	}
+	cases := make([]cs, len(instr.States))
+	for k, st := range instr.States {
+		c, _ := fr.get(ci.args[2*k]).(*vchan)
+		cases[k] = cs{c: c, send: st.Dir == types.SendOnly}
+		if cases[k].send {
+			cases[k].val = fr.get(ci.args[2*k+1])
+		}
+	}
+	// which cases are ready now?
+	ready := func(k int) bool {
+		c := cases[k].c
+		if c == nil {
+			return false
+		}
+		q := i.queues(c)
+		if cases[k].send {
+			if c.closed {
+				return true // will panic
+			}
+			for _, w := range q.receivers {
+				if w.sel == nil || !w.sel.done {
+					return true
+				}
+			}
+			return len(c.buf) < c.cap
+		}
+		if len(c.buf) > 0 || c.closed {
+			return true
+		}
+		for _, w := range q.senders {
+			if w.sel == nil || !w.sel.done {
+				return true
+			}
+		}
+		return false
+	}
+	var rs []int
+	for k := range cases {
+		if ready(k) {
+			rs = append(rs, k)
+		}
+	}
 	chosen := -1
 	var recvVal value
 	recvOk := false
-	for k, st := range instr.States {
-		c, _ := fr.get(ci.args[2*k]).(*vchan)
-		if c == nil {
-			continue
-		}
-		if st.Dir == types.RecvOnly {
-			if len(c.buf) > 0 {
-				chosen, recvVal, recvOk = k, c.buf[0], true
-				c.buf = c.buf[1:]
-				break
-			}
-			if c.closed {
-				chosen, recvVal = k, zero(c.elem)
-				break
-			}
-		} else {
-			if c.closed {
+	fire := func(k int) {
+		chosen = k
+		if cases[k].send {
+			if cases[k].c.closed {
 				panic(targetPanic{iface{types.Typ[types.String], "send on closed channel"}})
 			}
-			if len(c.buf) < c.cap {
-				c.buf = append(c.buf, fr.get(ci.args[2*k+1]))
-				chosen = k
-				break
+			if !i.trySend(cases[k].c, cases[k].val) {
+				panic("select: send case was ready but could not fire")
+			}
+		} else {
+			v, ok, r := i.tryRecv(cases[k].c)
+			if !r {
+				panic("select: receive case was ready but could not fire")
+			}
+			recvVal, recvOk = v, ok
+		}
+	}
+	switch {
+	case len(rs) == 1:
+		fire(rs[0])
+	case len(rs) > 1:
+		// Go picks uniformly among the ready cases: a symbolic choice
+		v := i.sym.fresh("select", 8)
+		i.sym.assume(i.sym.tt.bvcmp(opBvUlt, v, i.sym.tt.bv(uint64(len(rs)), 8)))
+		fire(rs[int(i.sym.concretise(v))])
+	case !instr.Blocking:
+		// default case
+	default:
+		if i.sched == nil {
+			panic(engineTrap{msg: "blocking select outside the cooperative scheduler"})
+		}
+		me := i.sched.cur
+		park := &selectPark{}
+		for k, c := range cases {
+			if c.c == nil {
+				continue
+			}
+			q := i.queues(c.c)
+			if c.send {
+				q.senders = append(q.senders, &waiter{g: me, val: c.val, selIdx: k, sel: park})
+			} else {
+				q.receivers = append(q.receivers, &waiter{g: me, selIdx: k, sel: park})
+			}
+		}
+		me.selIndex = -1
+		i.sched.block("select")
+		chosen = me.selIndex
+		if chosen == -2 {
+			panic(targetPanic{iface{types.Typ[types.String], "send on closed channel"}})
+		}
+		if chosen >= 0 && !cases[chosen].send {
+			recvVal, recvOk = me.recvVal, me.recvOk
+			if !recvOk {
+				recvVal = zero(cases[chosen].c.elem)
 			}
 		}
 	}
-	if chosen < 0 && instr.Blocking {
-		panic(engineTrap{msg: "blocking select outside the cooperative scheduler"})
+	if chosen >= 0 && i.sched != nil && len(rs) > 0 {
+		i.sched.schedule()
 	}
-	r[0], r[1] = chosen, recvOk
+	r := tuple{chosen, recvOk}
 	for k, st := range instr.States {
 		if st.Dir == types.RecvOnly {
 			if k == chosen {
@@ -113,6 +575,78 @@ func (i *interpreter) selectStmt(fr *frame, instr *ssa.Select, ci *cinstr) value
 		}
 	}
 	return r
+}
+
+// ---- mutexes under the scheduler
+
+func (i *interpreter) mutexLock(p *value) {
+	s := i.sched
+	if s == nil {
+		return
+	}
+	m := s.mutexes[p]
+	if m == nil {
+		m = &vmutex{}
+		s.mutexes[p] = m
+	}
+	s.schedule()
+	for m.held {
+		m.waiters = append(m.waiters, s.cur)
+		s.block("mutex")
+	}
+	m.held = true
+}
+
+func (i *interpreter) mutexUnlock(p *value) {
+	s := i.sched
+	if s == nil {
+		return
+	}
+	m := s.mutexes[p]
+	if m == nil || !m.held {
+		panic(targetPanic{iface{types.Typ[types.String], "sync: unlock of unlocked mutex"}})
+	}
+	m.held = false
+	for _, g := range m.waiters {
+		g.state = gRunnable
+	}
+	m.waiters = nil
+	s.schedule()
+}
+
+// quiesce lets every other goroutine run until all of them are blocked or done.
+func (i *interpreter) quiesce() {
+	s := i.sched
+	if s == nil {
+		return
+	}
+	me := s.cur
+	others := false
+	for _, g := range s.gs {
+		if g != me && g.state == gRunnable {
+			others = true
+		}
+	}
+	if !others {
+		return
+	}
+	me.state = gQuiescing
+	s.schedule()
+}
+
+// alive counts goroutines other than the current one that have not finished.
+func (i *interpreter) alive() int {
+	s := i.sched
+	if s == nil {
+		return 0
+	}
+	n := 0
+	for _, g := range s.gs {
+		if g != s.cur && g.state != gDone {
+			n++
+		}
+	}
+	return n
 }
 
 // tryIfConvert: if-conversion of pure triangles/diamonds (not yet enabled).
